@@ -49,13 +49,13 @@ def check(ctx):
     F = Facts(f)
     fact(ctx, R, f, "factor_variables_for_trial applicability", F.tests()[:1],
          ["not(f.applies_to_trial(1 + (-1 + t)//(self.sustain_count(f))))"], "applicability asked with the sustain division")
-    fact(ctx, R, f, "factor_variables_for_trial strides", F.assigns("offset"),
-         ["0", "len(f.levels)*" + PREV % "t", PREV % "t" + "*self.variables_per_trial()"],
-         "same strides as _encode_variable")
-    br = [s for s in F.stmts if isinstance(s, ast.If) and ast.unparse(s.test) == "f.has_complex_window"]
-    ok = len(br) == 1 and "len(f.levels)" in ast.unparse(br[0].body[0]) and "variables_per_trial" in ast.unparse(br[0].orelse[0])
-    ctx.check(ok, R, f, "factor_variables_for_trial branch polarity", "complex stride under has_complex_window",
-              "the strides of factor_variables_for_trial are attached to the wrong branches")
+    rets_ = [x for x in F.stmts if isinstance(x, ast.Return) and x.value is not None and not (isinstance(x.value, ast.List) and not x.value.elts)]
+    ctx.require(len(rets_) == 1, "factor_variables_for_trial: result return not found")
+    off = str(F.at(rets_[0], ast.Name(id="offset", ctx=ast.Load())))
+    want_off = "ite(f.has_complex_window, len(f.levels)*%s, %s*self.variables_per_trial())" % (PREV % "t", PREV % "t")
+    ctx.check(off == want_off, R, f, "factor_variables_for_trial strides %s" % off, "same strides as _encode_variable: complex stride under has_complex_window, grid stride otherwise",
+              "factor_variables_for_trial offsets its variables by `%s`, expected `%s`" % (off, want_off), rets_[0])
+    ctx.ok(R, f, "factor_variables_for_trial branch polarity (part of the stride term)", trivial=True)
     r = F.returns()
     ctx.check(len(r) == 1 and r[0].startswith("[1 + _b0 + ") and " for _b0 in [self.first_variable_for_level(f, _b0) for _b0 in " in r[0],
               R, f, "factor_variables_for_trial 1-based", "each level's first variable + offset + 1",
